@@ -28,7 +28,15 @@ def eval_case(case):
                     out.append(O.V("paused at step k and resumed differs from the uninterrupted run" + (" (through JSON)" if via_json else ""),
                                    "C15/resume" + ("-json" if via_json else ""), {"k": k, "diff": df[:3]}))
                     break
-    return {"violations": out, "sig": simcheck.behaviour_sig(S, tr0), "hist": simcheck.base_hist(S, tr0),
+    from .. import modelrun
+    dis = []
+    if tr0[-1]["exc"] is None:
+        kk = ref["time"] // 2
+        seq = [dict(op, max_time=kk), dict(op, init_state=False, init_log=False)]
+        cc = dict(case, ops=seq)
+        bb, trr = sim.run_ops(cc, want_snaps=True)
+        dis = modelrun.compare(cc, trr, modelrun.FULL)
+    return {"violations": out, "disagreements": dis, "sig": simcheck.behaviour_sig(S, tr0), "hist": simcheck.base_hist(S, tr0),
             "nontrivial": (ref or {}).get("time", 0) >= 2,
             "summary": {"status": (ref or {}).get("status"), "time": (ref or {}).get("time")}}
 
